@@ -1,5 +1,5 @@
 """C08 Root extent: viewBox, width and height enclose exactly the drawn content (DESIGN.md §5, Appendix A)."""
-import itertools, random, re
+import random, itertools, re
 from fractions import Fraction
 from vlib.engine import *  # noqa
 from vlib import geom as G
@@ -19,6 +19,29 @@ ASSUMPTIONS = ["E is recomputed from the output's own geometry for rendered elem
 POS = (-256, 256, 1)
 SZ = (0, 128, 1)
 BIG = "100000.0"
+
+
+def rand_path(pj, i, k0):
+    """a seeded random sequence of 4-8 path commands (every command letter, absolute and relative, several sub-paths) over 4 symbolic values"""
+    rnd = random.Random(9000 + pj)
+    ph = [f"[[{k0 + j}]]" for j in range(4)]
+    val = lambda: rnd.choice(ph + [str(rnd.randint(-9, 9)), str(rnd.randint(-9, 9))])
+    d = [f"M {ph[0]} {ph[1]}"]
+    for _ in range(rnd.randint(4, 8)):
+        c = rnd.choice("LlHhVvCcSsQqTtAaZzMm")
+        if c in "Ll" or c in "Tt" or c in "Mm":
+            d.append(f"{c} {val()} {val()}")
+        elif c in "HhVv":
+            d.append(f"{c} {val()}")
+        elif c in "Cc":
+            d.append(f"{c} 1 2 3 4 {val()} {val()}")
+        elif c in "SsQq":
+            d.append(f"{c} 1 2 {val()} {val()}")
+        elif c in "Aa":
+            d.append(f"{c} 4 3 0 {rnd.choice('01')} {rnd.choice('01')} {val()} {val()}")
+        else:
+            d.append(c)
+    return f'<path id="e{i}" d="{" ".join(d)}"/>', [(3, *POS), (14, *POS), (23, *POS), (4 + 9 * i, *POS)], [f"e{i}"], None
 
 
 def kinds():
@@ -63,6 +86,21 @@ def kinds():
                                      [(0, *POS), (10, *SZ), (5, *POS), (20, *SZ)], [f"e{i}"], None)
     K["clip-g-after"] = lambda i, k0: (f'<g id="e{i}" clip-path="url(#c{i})"><rect xy="[[{k0 + 2}]] 5" wh="[[{k0 + 3}]] 20"/></g><defs><clipPath id="c{i}"><rect xy="[[{k0}]] 0" wh="[[{k0 + 1}]] 10"/></clipPath></defs>',
                                        [(0, *POS), (10, *SZ), (5, *POS), (20, *SZ)], [f"e{i}"], None)
+    # control elements: what they render counts like anything else (every pass of every loop form)
+    K["loop-count"] = lambda i, k0: four(i, k0, '<loop count="3" loop-var="n{i}"><rect class="cnt{i}" xy="{{{{{0} + $n{i} * 7}}}} {1}" wh="{2} {3}"/></loop>') + ([f"@cls:cnt{i}"], None)
+    K["loop-until"] = lambda i, k0: four(i, k0, '<var u{i}="0"/><loop until="ge($u{i}, 2)"><rect class="cnt{i}" xy="{{{{{0} + $u{i} * 9}}}} {{{{{1} + $u{i} * 5}}}}" wh="{2} {3}"/><var u{i}="{{{{$u{i} + 1}}}}"/></loop>') + ([f"@cls:cnt{i}"], None)
+    K["loop-until1"] = lambda i, k0: four(i, k0, '<loop until="1"><rect class="cnt{i}" xy="{0} {1}" wh="{2} {3}"/></loop>') + ([f"@cls:cnt{i}"], None)
+    K["loop-while"] = lambda i, k0: four(i, k0, '<var w{i}="0"/><loop while="lt($w{i}, 2)"><circle class="cnt{i}" cxy="{{{{{0} - $w{i} * 9}}}} {1}" r="{2}"/><var w{i}="{{{{$w{i} + 1}}}}"/></loop>') + ([f"@cls:cnt{i}"], None)
+    K["for"] = lambda i, k0: four(i, k0, '<for var="q{i}" data="0, 11, -23"><rect class="cnt{i}" xy="{0} {{{{{1} + $q{i}}}}}" wh="{2} {3}"/></for>') + ([f"@cls:cnt{i}"], None)
+    K["if-true"] = lambda i, k0: four(i, k0, '<if test="1"><rect class="cnt{i}" xy="{0} {1}" wh="{2} {3}"/></if>') + ([f"@cls:cnt{i}"], None)
+    K["if-false"] = lambda i, k0: four(i, k0, '<if test="0"><rect xy="{0} {1}" wh="{2} {3}"/></if>', (300, 300, 20, 10)) + ([], None)
+    K["g-loop"] = lambda i, k0: four(i, k0, '<g id="e{i}" transform="translate({0} {1})"><loop count="2" loop-var="m{i}"><rect xy="{{{{$m{i} * 30}}}} 0" wh="{2} {3}"/></loop></g>') + ([f"e{i}"], None)
+    # paths with curves and arcs (the extent is taken over the on-curve points), absolute and relative
+    K["path-arc"] = lambda i, k0: (f'<path id="e{i}" d="M [[{k0}]] [[{k0 + 1}]] h [[{k0 + 2}]] a 5 5 0 0 1 5 5 v [[{k0 + 3}]] a 5 5 0 0 1 -5 5 h -10 a 5,5 0 0,1 -5,-5 z"/>', [(3, *POS), (14, *POS), (23, *SZ), (4 + 9 * i, *SZ)], [f"e{i}"], None)
+    K["path-curves"] = lambda i, k0: (f'<path id="e{i}" d="M [[{k0}]] [[{k0 + 1}]] c 1 2 3 4 [[{k0 + 2}]] [[{k0 + 3}]] s 1 1 4 -6 q 2 2 -7 3 t 5 5 A 3 3 0 1 0 [[{k0 + 2}]] 9 C 0 0 1 1 [[{k0 + 3}]] -4 S 1 1 2 [[{k0 + 1}]] Q 0 0 -3 -3 T 8 [[{k0}]]"/>',
+                                      [(3, *POS), (14, *POS), (23, *POS), (4 + 9 * i, *POS)], [f"e{i}"], None)
+    for pj in range(6):
+        K[f"path-rand{pj}"] = (lambda pj: lambda i, k0: rand_path(pj, i, k0))(pj)
     K["use"] = lambda i, k0: (f'<rect id="t{i}" xy="[[{k0}]] 2" wh="[[{k0 + 1}]] 4"/><use id="e{i}" href="#t{i}" x="[[{k0 + 2}]]" y="[[{k0 + 3}]]"/>',
                               [(1, *POS), (3, *SZ), (40, *POS), (-30, *POS)], [f"t{i}", f"e{i}"], None)
     K["use-x"] = lambda i, k0: (f'<rect id="t{i}" xy="[[{k0}]] 2" wh="[[{k0 + 1}]] 4"/><use id="e{i}" href="#t{i}" x="[[{k0 + 2}]]"/>',
@@ -82,8 +120,9 @@ def kinds():
     return K
 
 
-MAIN = ["rect", "circle", "ellipse", "line", "polyline", "polygon", "path", "text", "box", "gtrans", "gscale", "gscale2", "gnest", "gnest2", "gtrans1", "gneg", "gs-1-3", "gs-3-1", "gs-1-1", "gs-2-2", "gs-h", "gs-n1", "gs-1-n2", "gs-n2-1", "gs-t-1-3", "path-zrel", "path-zrel2", "path-multi", "use", "use-x", "use-y", "use-0", "usesym", "clip", "clip-g", "clip-after", "clip-g-after", "shapetext"]
-NOTHING = ["point", "defs", "specs", "symbol"]
+MAIN = ["rect", "circle", "ellipse", "line", "polyline", "polygon", "path", "text", "box", "gtrans", "gscale", "gscale2", "gnest", "gnest2", "gtrans1", "gneg", "gs-1-3", "gs-3-1", "gs-1-1", "gs-2-2", "gs-h", "gs-n1", "gs-1-n2", "gs-n2-1", "gs-t-1-3", "path-zrel", "path-zrel2", "path-multi", "use", "use-x", "use-y", "use-0", "usesym", "clip", "clip-g", "clip-after", "clip-g-after", "shapetext", "loop-count", "loop-until", "loop-until1", "loop-while", "for", "if-true", "g-loop", "path-arc", "path-curves",
+        "path-rand0", "path-rand1", "path-rand2", "path-rand3", "path-rand4", "path-rand5"]
+NOTHING = ["point", "defs", "specs", "symbol", "if-false"]
 ROOTS = ["", 'width="200"', 'height="10cm"', 'viewBox="0 0 100 50"', 'width="200" height="10cm"', 'width="30mm" viewBox="1 2 3 4"', 'height="77" viewBox="1 2 3 4"', 'width="1in" height="2in" viewBox="0 0 1 1"']
 
 
@@ -131,10 +170,19 @@ def split_unit(s):
 def counted_boxes(o, ids):
     """list of (validity condition, Box) for rendered elements, from the output's own geometry"""
     res = []
+    els = []
     for id_ in ids:
+        if id_.startswith("@cls:"):
+            found = [e for e in o.all if id_[5:] in (e.get("class") or "").split()]
+            if not found:
+                raise KeyError("no element of class %s in the output" % id_[5:])
+            els += found
+            continue
         el = o.by_id(id_)
         if el is None:
             raise KeyError("element %s missing from output" % id_)
+        els.append(el)
+    for el in els:
         tag = o.tag(el)
         if tag == "use":
             tgt = o.by_id(el.get("href").lstrip("#"))
